@@ -23,7 +23,7 @@ META = {
                    "index are solver variables; after every step the emitted prefix, waiting_for and len are compared "
                    "with the definition (all n! arrival orders x all drain choices are covered symbolically).",
     "bounds": {"quick": {"n": "<=4 (all permutations x all drain vectors x all flush/clear positions)", "ring_capacity": "<=4", "puts": "<=2c+1"},
-               "thorough": {"n": "<=5 complete; n=6 all permutations with 6 drain vectors, no flush", "ring_capacity": "<=6", "puts": "<=2c+1"}},
+               "thorough": {"n": "<=5 complete; PrintBuffer also n=6 (all 720 arrival orders, no flush/clear)", "ring_capacity": "<=6", "puts": "<=2c+1"}},
     "outside_bounds": ["more than n items / larger capacities", "serial numbers that are not a permutation of 0..n-1 "
                        "(repeated serials overwrite by contract)", "payload contents (never inspected by the code)"],
     "assumptions": ["dict semantics of the buffers' internal dictionaries = AssocDict in symbolic runs; counterexamples "
@@ -332,12 +332,8 @@ def jobs(tier):
     out.append(Job("C15", "harness.c15", "printbuffer_perm", {"n": 3, "special": "flush", "fpos": 2, "end": ";"}, timeout=T,
                    assoc=ASSOC, name="printbuffer[n=3,flush@2,end=;]"))
     if tier == "thorough":
-        n = 6
-        for ds in ([False] * 6, [True] * 6, [False, True] * 3, [True, False] * 3, [False] * 5 + [True], [True] + [False] * 5):
-            dname = "".join("d" if d else "-" for d in ds)
-            out.append(Job("C15", "harness.c15", "buffer_perm", {"n": n, "drains": ds, "fpos": -1}, timeout=3600,
-                           assoc=ASSOC, name="buffer[n=6,drains=%s,flush@-1]" % dname))
-        out.append(Job("C15", "harness.c15", "printbuffer_perm", {"n": 6, "special": "none", "fpos": -1}, timeout=3600,
+        # n = 6: PrintBuffer only (720 arrival orders, *measured* 72 min); the Buffer jobs at n = 6 did not exhaust within 1 h
+        out.append(Job("C15", "harness.c15", "printbuffer_perm", {"n": 6, "special": "none", "fpos": -1}, timeout=7200,
                        assoc=ASSOC, name="printbuffer[n=6,none]"))
     for c in range(1, C + 1):
         for op in ("put", "clear", "none"):
